@@ -68,14 +68,22 @@ def check(run):
         effect.check_fresh_result(run, K.effects_of(repo), f)
         bind.check_function_calls(run, repo, f, only={'clifford_rotate', 'CliffordMap'})
         bind.check_unpacks(run, repo, f)
-        # rotation applied to the identity table with zero phases
-        inits = {}
-        for st, ctx in walk(f.node):
-            if isinstance(st, ast.Assign) and isinstance(st.targets[0], ast.Name) and isinstance(st.value, ast.Call):
-                inits.setdefault(st.targets[0].id, []).append(norm(st.value.func).split('.')[-1])
-        run.check(inits.get('gs', [None])[0] == 'eye', 'R12.init', f, 'gs = eye(2N)',
+        # rotation applied to the identity table with zero phases: read from what reaches the kernel (locals or the expressions
+        # themselves in the call)
+        from ..names import deref as _deref
+        kc = [(c, t[0]) for c, t, h in repo.callees(f) if h == 'name' and t[0].name == 'clifford_rotate']
+        got = [None, None]
+        if len(kc) == 1:
+            from ..names import inlined as _inl
+            acts = K.actuals(kc[0][1], kc[0][0])
+            cctx = [ctx for st, ctx in walk(f.node) if any(x is kc[0][0] for x in ast.walk(st)) and not isinstance(st, (ast.If, ast.For, ast.While, ast.With, ast.Try))]
+            for k_, a_ in enumerate(acts[2:4]):
+                d_ = _inl(f, a_, depth=1, ctx=cctx[0] if cctx else None) if a_ is not None else None     # the definition that reaches the call
+                if isinstance(d_, ast.Call):
+                    got[k_] = norm(d_.func).split('.')[-1]
+        run.check(got[0] in ('eye', 'identity'), 'R12.init', f, 'gs = eye(2N)',
                   'the rotation map must start from the identity table')
-        run.check(inits.get('ps', [None])[0] == 'zeros', 'R12.init', f, 'ps = zeros(2N)',
+        run.check(got[1] == 'zeros', 'R12.init', f, 'ps = zeros(2N)',
                   'the rotation map must start from zero phases')
     # the rotation gate acts on the support of its generator (condense): a qubit is in the support iff (x, z) != (0, 0)
     from .C18 import support_mask
